@@ -207,6 +207,9 @@ class Run:
             if l.get("expect_fail"):   # reachability twin: assert!(false) must be reported violated
                 self.nontrivial += 1
                 return self.holds(lid, note="(reachability twin failed as required)")
+            real = [c for c in r["failed_checks"] if "unwinding assertion" not in c["desc"]]
+            if not real:
+                return self.inconclusive_(lid, "unwinding assertion failed: the #[kani::unwind] bound is too small for this harness (%s)" % r["failed_checks"][:2])
             cands = [p["values"] for p in r.get("playbacks", [])]
             if not cands:
                 return self.inconclusive_(lid, "failed without concrete values: %s" % r["failed_checks"][:3])
